@@ -16,7 +16,19 @@
 
 package oxia
 
-import "github.com/oxia-db/oxia/oxia/internal"
+import (
+	"context"
+	"time"
+
+	"go.opentelemetry.io/otel/metric/noop"
+
+	commonbatch "github.com/oxia-db/oxia/oxia/batch"
+	"github.com/oxia-db/oxia/oxia/internal"
+	"github.com/oxia-db/oxia/oxia/internal/batch"
+	"github.com/oxia-db/oxia/oxia/internal/metrics"
+	"github.com/oxia-db/oxia/oxia/internal/model"
+	"github.com/oxia-db/oxia/proto"
+)
 
 // Re-exports of internal client pieces for the verification harness (which lives outside this
 // module tree and cannot import oxia/internal).
@@ -49,6 +61,116 @@ func (t *VerifShardTable) Shards() []VerifShard {
 	res := make([]VerifShard, len(in))
 	for i, s := range in {
 		res[i] = VerifShard{Id: s.Id, Min: s.HashRange.MinInclusive, Max: s.HashRange.MaxInclusive}
+	}
+	return res
+}
+
+// ---- batching / fan-out hooks ----
+
+// VerifExecutor has the method set of internal.Executor, spelled with public types only, so that a
+// fake can be written outside this module tree.
+type VerifExecutor interface {
+	ExecuteWrite(ctx context.Context, request *proto.WriteRequest) (*proto.WriteResponse, error)
+	ExecuteRead(ctx context.Context, request *proto.ReadRequest) (proto.OxiaClient_ReadClient, error)
+	ExecuteList(ctx context.Context, request *proto.ListRequest) (proto.OxiaClient_ListClient, error)
+	ExecuteRangeScan(ctx context.Context, request *proto.RangeScanRequest) (proto.OxiaClient_RangeScanClient, error)
+}
+
+// VerifBatchers builds the real write and read batchers of one shard on top of a fake executor.
+type VerifBatchers struct {
+	cancel context.CancelFunc
+	Write  commonbatch.Batcher
+	Read   commonbatch.Batcher
+}
+
+func NewVerifBatchers(exec VerifExecutor, linger time.Duration, maxRequestsPerBatch int, maxWriteBatchSize int,
+	requestTimeout time.Duration) *VerifBatchers {
+	ctx, cancel := context.WithCancel(context.Background())
+	f := batch.NewBatcherFactory(exec, "verif", linger, maxRequestsPerBatch, metrics.NewMetrics(noop.NewMeterProvider()), requestTimeout)
+	shard := int64(0)
+	return &VerifBatchers{cancel: cancel, Write: f.NewWriteBatcher(ctx, &shard, maxWriteBatchSize), Read: f.NewReadBatcher(ctx, &shard)}
+}
+
+func (v *VerifBatchers) Close() {
+	_ = v.Write.Close()
+	_ = v.Read.Close()
+	v.cancel()
+}
+
+func (v *VerifBatchers) Put(key string, value []byte, cb func(*proto.PutResponse, error)) {
+	v.Write.Add(model.PutCall{Key: key, Value: value, Callback: cb})
+}
+
+func (v *VerifBatchers) Delete(key string, cb func(*proto.DeleteResponse, error)) {
+	v.Write.Add(model.DeleteCall{Key: key, Callback: cb})
+}
+
+func (v *VerifBatchers) DeleteRange(minKey, maxKey string, cb func(*proto.DeleteRangeResponse, error)) {
+	v.Write.Add(model.DeleteRangeCall{MinKeyInclusive: minKey, MaxKeyExclusive: maxKey, Callback: cb})
+}
+
+func (v *VerifBatchers) Get(key string, cb func(*proto.GetResponse, error)) {
+	v.Read.Add(model.GetCall{Key: key, IncludeValue: true, Callback: cb})
+}
+
+// verifShards is a fixed shard set.
+type verifShards struct{ ids []int64 }
+
+func (s *verifShards) Close() error        { return nil }
+func (s *verifShards) Get(string) int64    { return s.ids[0] }
+func (s *verifShards) GetAll() []int64     { return s.ids }
+func (s *verifShards) Leader(int64) string { return "" }
+
+// verifCapture is a Batcher that hands every GetCall to the harness instead of executing it.
+type verifCapture struct {
+	shard int64
+	sink  func(shard int64, cb func(*proto.GetResponse, error))
+}
+
+func (c *verifCapture) Close() error { return nil }
+func (c *verifCapture) Run()         {}
+func (c *verifCapture) Add(call any) {
+	if gc, ok := call.(model.GetCall); ok {
+		c.sink(c.shard, gc.Callback)
+	}
+}
+
+// VerifMultiShardGet runs the client's multi-shard comparison get over nShards shards; the per-shard
+// callbacks are handed to `sink` (in shard order), to be invoked by the harness in any order.
+func VerifMultiShardGet(nShards int, key string, comparison proto.KeyComparisonType,
+	sink func(shard int64, cb func(*proto.GetResponse, error))) <-chan GetResult {
+	ids := make([]int64, nShards)
+	for i := range ids {
+		ids[i] = int64(i)
+	}
+	ctx := context.Background()
+	c := &clientImpl{
+		shardManager: &verifShards{ids: ids},
+		readBatchManager: batch.NewManager(ctx, func(_ context.Context, shard *int64) commonbatch.Batcher {
+			return &verifCapture{shard: *shard, sink: sink}
+		}),
+	}
+	ch := make(chan GetResult, 4)
+	c.doMultiShardGet(key, &getOptions{comparisonType: comparison}, ch)
+	return ch
+}
+
+// VerifMergeRangeScan runs the k-way merge of the multi-shard range scan.
+func VerifMergeRangeScan(perShard [][]GetResult) []GetResult {
+	channels := make([]chan GetResult, len(perShard))
+	for i, rs := range perShard {
+		ch := make(chan GetResult, len(rs)+1)
+		for _, r := range rs {
+			ch <- r
+		}
+		close(ch)
+		channels[i] = ch
+	}
+	out := make(chan GetResult, 1024)
+	aggregateAndSortRangeScanAcrossShards(channels, out)
+	var res []GetResult
+	for r := range out {
+		res = append(res, r)
 	}
 	return res
 }
